@@ -690,7 +690,7 @@ def run(chk):
     _component_run(chk)
     from harness import syscheck
     core.extra_props_phase(chk, "C10_system")
-    syscheck.system_phase(chk, "C10", {'plain': 5, 'cancel': 2, 'kill': 2, 'squeuefail': 1}, n_quick=120, n_thorough=2500, also=())
+    syscheck.system_phase(chk, "C10", {'plain': 3, 'racing_try': 4, 'cancel': 2, 'kill': 2, 'squeuefail': 1}, n_quick=120, n_thorough=2500, also=())
 
 
 def replay(path):
